@@ -259,6 +259,7 @@ func init() {
 		Explanation: "Static analysis of the object/scope converters: all four look their argument up in the memo map first, register a new object/scope in both maps before converting anything it refers to (termination and sharing on the cyclic graphs every file has), carry Kind, Name, Decl, Data resp. Outer, Objects over through type switches with the documented arms and a panicking default; every *Object/*Scope-typed field of every node struct is converted in both directions; node-valued Decl/Data are deferred and drained under Extras with duplicates allowed; without Extras nil is returned. The package builder and scopes (resolve.go, scope.go) equal GOROOT go/ast after erasing positions (frozen, reasoned divergence). Decides the structural conditions of graph isomorphism; does not evaluate concrete graphs.",
 		NotCovered:  []string{"isomorphism on concrete cyclic graphs"},
 	}, func(e *Env) {
+		e.RDeadAppend()
 		e.RMemo()
 		for _, sp := range [][4]string{
 			{"fileDecorator", "decorateObject", "Dst.Objects", "Ast.Objects"},
